@@ -217,6 +217,10 @@ def gen_prim(r, cfg, k):
         if k == 'INTEGER':
             lo = r.choice([-200, -1, 0, 1, 100])
             d['con'] = {'range': [lo, lo + r.choice([0, 1, 10, 1000, 2 ** 33])]}
+            if r.random() < 0.3:
+                # a type refined twice:  T ::= INTEGER (lo..hi)   U ::= T (v1 | v2 | ...)
+                hi = d['con']['range'][1]
+                d['con']['refine_values'] = sorted(set([lo, hi] + ([(lo + hi) // 2] if r.random() < 0.5 else [])))
         elif k in ('OCTETSTRING',) + CHARS:
             lo = r.choice([0, 1, 2, 4])
             d['con'] = {'size': [lo, lo + r.choice([0, 1, 4, 200])]}
@@ -386,6 +390,8 @@ def gen_value(r, desc, vc=None, govmap=None):
     if k == 'BOOLEAN':
         return r.random() < 0.5
     if k == 'INTEGER':
+        if 'refine_values' in con:
+            return r.choice(con['refine_values'])
         if 'range' in con:
             lo, hi = con['range']
             return r.choice([lo, hi, (lo + hi) // 2, r.randint(lo, hi)])
@@ -526,8 +532,9 @@ def _constraint(desc):
         cs.append(p.constraint.PermittedAlphabetConstraint(*list(con['alpha'])))
     if not cs:
         return None
-    if len(cs) == 1:
+    if len(cs) == 1 and 'refine_values' not in con:
         return cs[0]
+    # the idiomatic form (Integer.subtypeSpec + ValueRangeConstraint(...)): a set that subtype() can extend
     return p.constraint.ConstraintsIntersection(*cs)
 
 
@@ -563,6 +570,8 @@ def build_schema(desc):
     if con is not None:
         kw['subtypeSpec'] = con
     obj = cls(**kw)
+    if (desc.get('con') or {}).get('refine_values') is not None:
+        obj = obj.subtype(subtypeSpec=p.constraint.SingleValueConstraint(*desc['con']['refine_values']))
     for mode, c, number in desc.get('tags') or ():
         t = p.tag.Tag(_tag_class(c), p.tag.tagFormatSimple, number)
         if mode == 'I':
@@ -981,6 +990,9 @@ def conforms(obj, desc, schema, path='$'):
             lo, hi = con['range']
             if not lo <= int(obj) <= hi:
                 return '%s: %d outside %d..%d' % (path, int(obj), lo, hi)
+        if 'refine_values' in con:
+            if int(obj) not in con['refine_values']:
+                return '%s: %d outside the permitted values %r' % (path, int(obj), con['refine_values'])
         if 'size' in con:
             lo, hi = con['size']
             n = len(obj)
